@@ -433,6 +433,47 @@ func runC34(c *Ctx) {
 	}
 	c.Check(nreq >= 40, "R-LOCK", pkg, "lock-requiring sites enumerated", "-", fmt.Sprint(nreq))
 
+	// ---------------- the sticky error of a half is read under that half's lock
+	nerr := 0
+	for _, fn := range fns {
+		if fn.Signature.Recv() != nil && strings.HasSuffix(typeStr(fn.Signature.Recv().Type()), "tls.halfConn") {
+			continue
+		}
+		k := 0
+		for _, b := range fn.Blocks {
+			for _, in := range b.Instrs {
+				ld, ok := in.(*ssa.UnOp)
+				if !ok || ld.Op != token.MUL {
+					continue
+				}
+				fa, ok := ld.X.(*ssa.FieldAddr)
+				if !ok || fieldName(fa) != "halfConn.err" {
+					continue
+				}
+				half := lockIDOfHalf(fa.X)
+				var anyOf []string
+				switch half {
+				case OUT:
+					anyOf = []string{OUT, HS}
+				case IN:
+					anyOf = []string{IN}
+				default:
+					continue
+				}
+				nerr++
+				k++
+				c.Sites++
+				h := heldFull(fn, in)
+				ok = false
+				for _, l := range anyOf {
+					ok = ok || h[l]
+				}
+				c.Check(ok, "R-LOCK", short(FuncName(fn)), fmt.Sprintf("read #%d of %s.err runs with %s held (a decision taken on an unlocked read can be overtaken by the goroutine that latches the error)", k, half, strings.Join(anyOf, " or ")), w.InstrPos(in), "held "+setStr(h))
+			}
+		}
+	}
+	c.Check(nerr >= 2, "R-LOCK", pkg, "reads of the sticky errors enumerated", "-", fmt.Sprint(nerr))
+
 	// ---------------- acquisition order
 	edges := map[string][]string{}
 	for _, fn := range fns {
